@@ -86,6 +86,7 @@ func runC03(c *Ctx) {
 	ruleX1(c, "D2")
 	ruleK(c, "K1", "K2", "")
 	ruleK1w(c, "K4", 12)
+	ruleD4(c, "D4")
 	r.Rule("K5", "string-tagged keys are never parsed as numbers on their way into a path", 1)
 	ruleK5(c, "K5")
 	dropEmptyRule(r)
